@@ -60,10 +60,34 @@ example : resolveOrigin "//evil.test".toList = .other := by decide
 example : resolveOrigin "/\\evil.test".toList = .other := by decide
 example : resolveOrigin "https://evil.test".toList = .other := by decide
 
+/-- the origin every same-origin redirect is built on (`redirect_uri`, relative post-logout URIs) is read off the request itself:
+    scheme from X-Forwarded-Proto (else TLS or not), host from X-Forwarded-Host (else Host) — two requests that agree on these
+    four inputs get the same origin, whatever else they carry -/
+theorem origin_from_request (q q' : RawReq) (hh : q.host = q'.host) (ht : q.tls = q'.tls)
+    (hp : hdrGet q.hdrs "X-Forwarded-Proto".toList = hdrGet q'.hdrs "X-Forwarded-Proto".toList)
+    (hx : hdrGet q.hdrs "X-Forwarded-Host".toList = hdrGet q'.hdrs "X-Forwarded-Host".toList) :
+    (digest q).base = (digest q').base := by
+  show determineScheme q ++ "://".toList ++ determineHost q = determineScheme q' ++ "://".toList ++ determineHost q'
+  unfold determineScheme determineHost
+  rw [hh, ht, hp, hx]
+
+/-- without forwarding headers it is `http(s)://Host` -/
+theorem origin_plain (q : RawReq) (hp : hdrGet q.hdrs "X-Forwarded-Proto".toList = [])
+    (hx : hdrGet q.hdrs "X-Forwarded-Host".toList = []) :
+    (digest q).base = (if q.tls then "https".toList else "http".toList) ++ "://".toList ++ q.host := by
+  have hs : determineScheme q = (if q.tls then "https".toList else "http".toList) := by
+    unfold determineScheme; rw [if_neg (by rw [hp]; exact fun h => h rfl)]
+  have hh : determineHost q = q.host := by
+    unfold determineHost; rw [if_neg (by rw [hx]; exact fun h => h rfl)]
+  show determineScheme q ++ "://".toList ++ determineHost q = _
+  rw [hs, hh]
+
 /-! obligations against the regenerated shapes: the functions these theorems rest on still have the steps, guards, status
     codes and literals the model was written against (`Oidc/Shapes.lean`) -/
 theorem shape_handleCallback_ok : Oidc.Shapes.Shape_handleCallback := by unfold Oidc.Shapes.Shape_handleCallback; rfl
 theorem shape_handleLogout_ok : Oidc.Shapes.Shape_handleLogout := by unfold Oidc.Shapes.Shape_handleLogout; rfl
 theorem shape_defaultInitiateAuthentication_ok : Oidc.Shapes.Shape_defaultInitiateAuthentication := by unfold Oidc.Shapes.Shape_defaultInitiateAuthentication; rfl
 
+theorem shape_determineScheme_ok : Oidc.Shapes.Shape_determineScheme := by unfold Oidc.Shapes.Shape_determineScheme; rfl
+theorem shape_determineHost_ok : Oidc.Shapes.Shape_determineHost := by unfold Oidc.Shapes.Shape_determineHost; rfl
 end Oidc.Props.C15
